@@ -53,6 +53,8 @@ def build(rng, case, k):
         ds['amps'][rng.randint(ns)] = np.inf
     if ds['sim'] is not None:
         ds['sim'][0, 0] = -np.inf
+    if (k // 2) % 2:
+        ds['aux_dtype'] = np.float32      # amplitudes / whitening / similarity stored in single precision
     ds['T'][0, 0, 0] = np.nan
     if k % 4 == 1:
         ds['T'][nt - 1] = np.nan          # an all-NaN template: zeroed in the model, NOT on disk
